@@ -51,6 +51,15 @@ cases(NoIntra_calculate)(_plain_cases(O + 'NoIntra:NoIntra'))
 
 # --------------------------------------------------------------------------- Gaussian / FJC closed forms
 
+def _away_from_cancellation(f, k, scale):
+    """Concrete samples only (the symbolic obligations cover every real k): the native cross-check compares two
+    floating-point evaluations of the closed form and is meaningless where the closed form has lost its digits -- the
+    regime k*scale <= 0.05 is the recorded known finding of C11 (decided by the bounded floating-point stand-in)."""
+    if not f.symbolic:
+        import numpy as _np
+        f.assume(bool(_np.all(_np.abs(_np.asarray(k, dtype=float)) * float(scale) > 0.05)))
+
+
 @contract('pyPRISM/omega/Gaussian.py::Gaussian.calculate', props=['C11'])
 def Gaussian_calculate(self, k):
     N = self.length
@@ -62,8 +71,11 @@ def Gaussian_calculate(self, k):
 @cases(Gaussian_calculate)
 def _gauss_cases():
     def build(f):
-        self = f.construct(O + 'Gaussian:Gaussian', sigma=f.real('sigma', pos=True), length=f.int('N', lo=1))
-        return dict(self=self, k=f.array('k', (f.int('n', lo=0),)))
+        sigma = f.real('sigma', pos=True)
+        self = f.construct(O + 'Gaussian:Gaussian', sigma=sigma, length=f.int('N', lo=1))
+        k = f.array('k', (f.int('n', lo=0),))
+        _away_from_cancellation(f, k, sigma)
+        return dict(self=self, k=k)
     yield 'any N, sigma, k grid', build, {'history': {'method': 'calculate', 'mutable': ('sigma', 'length'), 'other': True}}
 
 
@@ -78,8 +90,11 @@ def FreelyJointedChain_calculate(self, k):
 @cases(FreelyJointedChain_calculate)
 def _fjc_cases():
     def build(f):
-        self = f.construct(O + 'FreelyJointedChain:FreelyJointedChain', length=f.int('N', lo=1), l=f.real('l', pos=True))
-        return dict(self=self, k=f.array('k', (f.int('n', lo=0),)))
+        l = f.real('l', pos=True)
+        self = f.construct(O + 'FreelyJointedChain:FreelyJointedChain', length=f.int('N', lo=1), l=l)
+        k = f.array('k', (f.int('n', lo=0),))
+        _away_from_cancellation(f, k, l)
+        return dict(self=self, k=k)
     yield 'any N, l, k grid', build, {'history': {'method': 'calculate', 'mutable': ('N', 'l'), 'other': True}}
 
 
